@@ -8,6 +8,7 @@ import (
 	"go/token"
 	"go/types"
 	"math"
+	"net"
 	"net/textproto"
 	"strconv"
 	"strings"
@@ -118,8 +119,29 @@ func init() {
 		"(net/http.Header).Del":    intrHeaderDel,
 		"(net/http.Header).Values": intrHeaderValues,
 
+		// net: pure parsers, executed natively on concrete arguments
+		"net.SplitHostPort": func(fr *frame, a []value) value {
+			h, p, err := net.SplitHostPort(needStr(fr, a[0]))
+			if err != nil {
+				return tuple{"", "", iface{t: numErrType, v: "net: " + err.Error()}}
+			}
+			return tuple{h, p, iface{}}
+		},
+		"net.ParseIP": func(fr *frame, a []value) value {
+			ip := net.ParseIP(needStr(fr, a[0]))
+			if ip == nil {
+				return []value(nil)
+			}
+			out := make([]value, len(ip))
+			for i := range ip {
+				out[i] = ip[i]
+			}
+			return out
+		},
+		"net.JoinHostPort": func(fr *frame, a []value) value { return net.JoinHostPort(needStr(fr, a[0]), needStr(fr, a[1])) },
+
 		// math
-		"math.Ceil":         intrCeil,
+		"math.Ceil":        intrCeil,
 		"math.Floor":        intrFloor,
 		"math.IsNaN":        intrIsNaN,
 		"math.IsInf":        intrIsInf,
@@ -867,7 +889,7 @@ func ctxOf(v value) *ctxObj {
 			panic(runtimePanic("cannot create context from nil parent"))
 		}
 	}
-	panic(engineError{fmt.Sprintf("context value is %T (only engine contexts are supported)", v)})
+	panic(engineError{fmt.Sprintf("context value is %T %.200s (only engine contexts are supported)", v, toString(v))})
 }
 
 func cancelFn(c *ctxObj) value {
